@@ -5,7 +5,7 @@ E2 = "E2-mirsym"
 ENGINES = [
     {"name": E1, "path": "/verif/lib/kanirun.py", "serves_properties": ["C05", "C08", "C18", "C19"],
      "kind_free_text": "Kani 0.68 proof harnesses (CBMC 6.11 + CaDiCaL) over hyperdriver's compiled functions; harness sources in /verif/kani, instantiated per concrete size by /verif/props/<id>.py"},
-    {"name": E2, "path": "/verif/mirsym/run.py", "serves_properties": ["C09", "C12", "C13", "C16", "C17", "C20"],
+    {"name": E2, "path": "/verif/mirsym/run.py", "serves_properties": ["C02", "C04", "C05", "C06", "C09", "C12", "C13", "C15", "C16", "C17", "C20"],
      "kind_free_text": "path-wise symbolic execution of rustc's MIR (-Zunpretty=mir, regenerated from /repo on every run) with z3 (strings/bit-vectors), cvc5 cross-check, library calls replaced by a contract-level model table, counterexamples replayed through the public API by /verif/native"},
 ]
 NOTES = "see DESIGN.md. exit 0 = all obligations discharged within the stated bounds; exit 1 = VIOLATION (replayed natively); exit 2 = inconclusive (timeout, OOM, unsupported construct, unreproduced counterexample)."
@@ -14,8 +14,14 @@ KANI_NOTE = "Trusted: Kani's rustc->goto translation, CBMC/CaDiCaL, the stubs li
 MIR_NOTE = "Trusted: the mirsym MIR parser/executor, the model table for library calls (validated differentially on concrete inputs), z3/cvc5. Bounded: string lengths, loop unrollings and enumerated shapes as listed in the evidence."
 
 CLAIMS = {
-    "C05": {"engine": E1, "design_ref": "DESIGN.md 2/C05", "technique": "bounded model checking of the compiled code (Kani/CBMC), virtual clock as solver variable", "note": KANI_NOTE,
+    "C02": {"engine": E2, "design_ref": "DESIGN.md 2/C02", "technique": "symbolic execution of rustc MIR with SMT: step contracts from arbitrary bounded pool states (collections, channels, mutex as contract-level models)", "note": MIR_NOTE,
+            "text": "Each synchronous step on the release/hand-back path (Pooled::drop, WhenReady poll/drop, PoolInner::push, register_connected) decided from every bounded pre-state: a non-shareable connection ends in exactly one place, is never cloned, is not visible in the pool while waiting for readiness, and a shareable one never takes the hand-back path. Partial: multi-request interleavings are covered only as sequences of such steps."},
+    "C04": {"engine": E2, "design_ref": "DESIGN.md 2/C04", "technique": "symbolic execution of rustc MIR with SMT: step contracts of Pool::checkout / pop / push / register_connected", "note": MIR_NOTE,
+            "text": "Pool::checkout reuses an open idle connection instead of dialing, becomes a pure waiter while an attempt is in flight, marks multiplexed dials; a finished multiplexed attempt serves all waiters and is stored; pop returns the newest eligible entry. Partial: polled/cancelled checkouts are outside."},
+    "C05": {"engine": E1, "design_ref": "DESIGN.md 2/C05", "technique": "bounded model checking of the compiled code (Kani/CBMC, virtual clock as solver variable) + symbolic execution of rustc MIR with SMT for PoolInner::pop and the hand-back gate", "note": KANI_NOTE + " " + MIR_NOTE,
             "text": "IdleConnections::pop/push and PoolInner::pop decided for every instant/openness/timeout valuation on lists of 0..3 entries: the returned connection is open, unexpired and the newest eligible one; one pop from an arbitrary list is an inductive step over histories."},
+    "C06": {"engine": E2, "design_ref": "DESIGN.md 2/C06", "technique": "symbolic execution of rustc MIR with SMT: origin isolation asserted in every pool step; key derivation and token map injectivity", "note": MIR_NOTE,
+            "text": "Every pool step is run with a second origin populated and must leave its idle list, waiters and in-flight marker untouched; the pool key is exactly (scheme, authority) of the request URI; TokenMap is injective for symbolic keys."},
     "C08": {"engine": E1, "design_ref": "DESIGN.md 2/C08", "technique": "bounded model checking of the compiled code (Kani/CBMC), induction over reads", "note": KANI_NOTE,
             "text": "ReadVersion::poll decided for every byte valuation from every reachable undecided state and every chunking of one poll (base + step = any number of reads); Rewind replays exactly the consumed bytes."},
     "C13": {"engine": E2, "design_ref": "DESIGN.md 2/C13", "technique": "symbolic execution of rustc MIR with SMT (z3 strings/bit-vectors), counterexamples replayed natively", "note": MIR_NOTE,
@@ -24,6 +30,8 @@ CLAIMS = {
             "text": "The duplex listener's accept paths decided for every queue of <= 3 connection requests with any subset of clients having given up: an error / end of stream is produced only when the listener's channel is closed. Partial: the serving loop itself and OS listeners are outside (stated)."},
     "C12": {"engine": E2, "design_ref": "DESIGN.md 2/C12", "technique": "symbolic execution of rustc MIR with SMT (z3), counterexamples replayed natively", "note": MIR_NOTE,
             "text": "TlsTransport::call / TlsTransportWrapper::call decided for every URI form and TLS configuration: TLS iff configured and https|wss, server name = URI host, no plaintext connect after a TLS-side error, and building the TLS stream cannot panic for any syntactically valid host."},
+    "C15": {"engine": E2, "design_ref": "DESIGN.md 2/C15", "technique": "symbolic execution of rustc MIR with SMT: inductive step on the only insertion site of the idle list", "note": MIR_NOTE,
+            "text": "From every pre-state with len <= max_idle_per_host (max in {0,1,2,8}) one push / one release leaves len <= max; pop never adds: the bound holds at every point of every history."},
     "C16": {"engine": E2, "design_ref": "DESIGN.md 2/C16", "technique": "symbolic execution of rustc MIR with SMT; VecDeque as a list model validated through the verif-hooks feature", "note": MIR_NOTE,
             "text": "sort_preferred / set_port / from_binding decided for every address list up to length 7 in every family arrangement with symbolic payloads: element identity per output position against the specification list."},
     "C17": {"engine": E2, "design_ref": "DESIGN.md 2/C17", "technique": "symbolic execution of rustc MIR with SMT (z3): reachability of panic terminators", "note": MIR_NOTE,
@@ -41,10 +49,6 @@ NOT_APPLICABLE = {
     "C03": "liveness over interleavings of several Checkout futures (oneshot Receiver::poll, PinnedDrop, spawned continuation); Kani cannot compile tokio's oneshot poll path and the MIR engine does not model coroutine/poll schedules.",
     "C10": "the algorithm is a set of nested compiler-generated futures over FuturesUnordered and tokio timers; probes: > 15 min / 3.5 GB without reaching the solver (DESIGN section 0).",
     "C11": "same blocker as C10.",
-    "C02": "not claimed yet: Kani harnesses over PoolInner::push with oneshot waiters exceed 13 GB; being moved to the MIR engine",
-    "C04": "not claimed yet: same as C02",
-    "C06": "not claimed yet: check under construction (MIR engine)",
     "C07": "not claimed yet: check under construction",
-    "C15": "not claimed yet: same as C02",
     "C14": "needs a live Checkout polled after a push and the delayed-drop respawn path; same blockers as C03.",
 }
